@@ -28,6 +28,26 @@ def unwords (l : List String) : String := " ".intercalate l
 
 def bools : List Bool := [false, true]
 
+/-- `K` request: a sequence of cache-level operations run through `cacheRun []` -/
+def parseCacheOps : Nat → List String → Option (List CacheOp)
+  | _, [] => some []
+  | 0, _ => none
+  | f + 1, "L" :: t :: rest => do pure (.lines (← decStr t) :: (← parseCacheOps f rest))
+  | f + 1, "S" :: t :: rest => do pure (.starts (← decStr t) :: (← parseCacheOps f rest))
+  | f + 1, "I" :: t :: i :: rest => do
+      pure (.indexToPos (← decStr t) (← decNat i) :: (← parseCacheOps f rest))
+  | f + 1, "R" :: t :: r :: c :: rest => do
+      pure (.rowColToIndex (← decStr t) (← decInt r) (← decInt c) :: (← parseCacheOps f rest))
+  | f + 1, "G" :: t :: rest => do pure (.gc (← decStr t) :: (← parseCacheOps f rest))
+  | _, _ => none
+
+def encCacheAns : CacheAns → String
+  | .lines ls => "L " ++ encTexts ls
+  | .starts idx => "S " ++ encNats idx
+  | .pos (r, c) => s!"I {r} {c}"
+  | .index i => s!"R {i}"
+  | .none => "G"
+
 def handle (toks : List String) : String :=
   match toks with
   | ["T", t] =>
@@ -140,6 +160,10 @@ def handle (toks : List String) : String :=
     match decStr t, decNat c, decOptInt s, decOptInt e with
     | some t, some c, some s, some e => encInt (matchingBracket ⟨t, c⟩ s e)
     | _, _, _, _ => "bad-op"
+  | "K" :: rest =>
+    match parseCacheOps rest.length rest with
+    | some ops => " | ".intercalate ((cacheRun [] ops).1.map encCacheAns)
+    | none => "bad-op"
   | _ => "bad-op"
 
 def main : IO Unit := run handle
